@@ -93,6 +93,9 @@ func NewService(
 		DisableCompression:  DefaultDisableCompression,
 		TLSHandshakeTimeout: DefaultTLSHandshakeTimeout,
 		MaxIdleConnsPerHost: DefaultMaxIdleConnsPerHost,
+		// response_timeout: a backend that accepted the request has this long to start answering
+		// (0 disables it); without it a silent backend holds the request for as long as the client waits
+		ResponseHeaderTimeout: configuration.GetResponseTimeout(),
 		DialContext: func(ctx context.Context, network, addr string) (net.Conn, error) {
 			dialer := &net.Dialer{
 				Timeout:   configuration.GetConnectionTimeout(),
